@@ -49,6 +49,12 @@ func (p *FloatingIPPlugin) Bind(args *schedulerapi.ExtenderBindingArgs) error {
 		// see https://github.com/kubernetes/kubernetes/pull/60332
 		return fmt.Errorf("pod which doesn't want floatingip have been sent to plugin")
 	}
+	if args.PodUID != "" && pod.UID != args.PodUID {
+		// the pod in our cache is an earlier pod of the same name, its uid must not be stored along with the ip of the
+		// pod which is being bound, otherwise the delete event of the earlier pod releases the ip
+		return fmt.Errorf("pod %s uid %s in cache mismatches uid %s to bind, waiting for the cache to be synced",
+			util.Join(args.PodName, args.PodNamespace), pod.UID, args.PodUID)
+	}
 	defer p.lockPod(pod.Name, pod.Namespace)()
 	keyObj, err := util.FormatKey(pod)
 	if err != nil {
